@@ -1,4 +1,4 @@
-import Cgm.Driver.OpsMat
+import Cgm.Driver.OpsQuat
 /-!
 # Driver: reads op lines on stdin, prints the model's answer per line.
 -/
@@ -21,6 +21,7 @@ def lookup (name : String) : Option Op :=
   (opsVecSpecial name).orElse fun _ =>
   (opsPointSpecial name).orElse fun _ =>
   (opsMatSpecial name).orElse fun _ =>
+  (opsQuat name).orElse fun _ =>
   lookupTyped name
 
 def runLine (line : String) : String :=
